@@ -17,11 +17,20 @@ Holds(n) == CASE n = "ListedPresent" -> ListedPresent [] n = "NoLoss" -> NoLoss 
 TraceInit == Init /\ tid \in 1..Len(Traces) /\ l = 1 /\ tviol = {}
 
 Stutter == UNCHANGED vars
+\* EndPack(p) . Load(p) as one step (there is no transport operation between two pack() calls)
+EndPackThenLoad(p) ==
+  /\ alive[p] /\ done[p] + 1 < MaxCommits
+  /\ done' = [done EXCEPT ![p] = @ + 1]
+  /\ mem' = [mem EXCEPT ![p] = namesFile] /\ atLoad' = [atLoad EXCEPT ![p] = namesFile]
+  /\ pc' = [pc EXCEPT ![p] = "write"]
+  /\ UNCHANGED <<namesFile, packsDir, idxDir, obsDir, content, nextId, lock, newp, obs, alive, committed, crashes, viol>>
 Step(e) ==
   LET p == e.p IN
   CASE e.kind = "read_names" ->
          IF e.locked THEN Stutter
-         ELSE IF pc[p] = "idle" THEN Load(p) ELSE Refresh(p)
+         ELSE IF pc[p] = "idle" THEN Load(p)
+         ELSE IF pc[p] = "tip" /\ newp[p] = NoPack THEN EndPackThenLoad(p)     \* next pack() of the same process
+         ELSE Refresh(p)
     [] e.kind = "publish" ->
          /\ e.id = nextId
          /\ IF e.auto THEN PackOk(p, SeqToSet(e.chosen)) /\ content'[e.id] = SeqToSet(e.keys)
@@ -34,7 +43,9 @@ Step(e) ==
     [] e.kind = "obs_idx"   -> ObsoleteIdx(p, e.id)
     [] e.kind = "tip"       -> SetTip(p) /\ SeqToSet(<<e.key>>) \subseteq committed'
     [] e.kind = "read_pack" -> Stutter          \* only failed reads are recorded; the reload follows as read_names
-    [] e.kind = "finish"    -> IF p \in Readers /\ pc[p] = "read" THEN ReaderDone(p) ELSE Stutter
+    [] e.kind = "finish"    -> IF p \in Readers /\ pc[p] = "read" THEN ReaderDone(p)
+                               ELSE IF pc[p] = "tip" /\ newp[p] = NoPack THEN EndPack(p) ELSE Stutter
+    [] e.kind = "packed"    -> EndPack(p)
     [] e.kind = "crash"     -> Crash(p)
 
 Consume ==
